@@ -494,6 +494,14 @@ class _State:
                 r = m2.digest_glucose(src)
                 head = "returned"
                 ex["text_ok"] = not (isinstance(r, str) and r.startswith("Metabolic Failure"))
+                ex["text"] = [ord(c) for c in r[:4000]] if isinstance(r, str) else None
+                # reference: str() of Python's value of the text (the legacy entry point is the math pathway)
+                try:
+                    ref = eval(compile(src, "<ref>", "eval"), {"__builtins__": {}}, dict(M.Mitochondria.SAFE_FUNCTIONS))
+                    ex["ref_text"] = [ord(c) for c in str(ref)[:4000]]
+                except BaseException as e:  # noqa
+                    ex["ref_text"] = None
+                    ex["ref_raise"] = type(e).__name__
             except BaseException as e:  # noqa
                 ex["raised"] = type(e).__name__
                 head = "raised"
@@ -505,8 +513,11 @@ class _State:
                 ag = BioAgent("a", "Executor", ATP_Store(budget=1000, silent=True))
                 ag.mitochondria.silent = True
                 try:
-                    ag.express(Signal(content="calculate " + src))
+                    ap = ag.express(Signal(content="calculate " + src))
                     ex["agent"] = "returned"
+                    pl = getattr(ap, "payload", None)
+                    if isinstance(pl, str) and pl.startswith("Calculated: "):
+                        ex["agent_text"] = [ord(c) for c in pl[len("Calculated: "):][:4000]]
                 except BaseException as e:  # noqa
                     ex["agent"] = "raised:" + type(e).__name__
             except BaseException as e:  # noqa
@@ -562,8 +573,10 @@ class _State:
             forced, src = t[1], unhexs(t[3])
             pw = None if forced == "auto" else getattr(M.MetabolicPathway, PATHS[forced])
             m2 = M.Mitochondria(silent=True)
+            tool_fns = {}
             for name, caps in self.tools:
-                m2.register_function(name, (lambda *a, **k: 0), required_capabilities=self._caps(caps))
+                tool_fns[name] = (lambda *a, _n=name, **k: ("tool", _n, a, tuple(k.items())))
+                m2.register_function(name, tool_fns[name], required_capabilities=self._caps(caps))
             ex = {}
             try:
                 with prof:
@@ -586,6 +599,28 @@ class _State:
                     if r.pathway.value == "logic":
                         ref = bool(ref)
                     ex["ref"] = canon(ref)
+                except SyntaxError:
+                    ex["ref"] = None
+                    ex["ref_raise"] = "SyntaxError"
+                except BaseException as e:  # noqa
+                    ex["ref"] = None
+                    ex["ref_raise"] = type(e).__name__
+            if r.pathway is not None and r.pathway.value == "tool":
+                # reference on the tool pathway: the text must compile (Python refuses e.g. a repeated keyword for ANY
+                # callee); every argument expression is evaluated by Python with the allow-listed names; the registered
+                # tool is applied to those values
+                try:
+                    compile(src, "<ref>", "eval")
+                    body = ast.parse(src, mode="eval").body
+                    if (isinstance(body, ast.Call) and isinstance(body.func, ast.Name) and body.func.id in tool_fns
+                            and not any(isinstance(a, ast.Starred) for a in body.args)
+                            and all(k.arg is not None for k in body.keywords)):
+                        env = dict(M.Mitochondria.SAFE_FUNCTIONS)
+                        ev = lambda n: eval(compile(ast.fix_missing_locations(ast.Expression(body=n)), "<arg>", "eval"),
+                                            {"__builtins__": {}}, env)
+                        a = [ev(x) for x in body.args]
+                        k = {kw.arg: ev(kw.value) for kw in body.keywords}
+                        ex["ref"] = canon(tool_fns[body.func.id](*a, **k))
                 except SyntaxError:
                     ex["ref"] = None
                     ex["ref_raise"] = "SyntaxError"
